@@ -27,16 +27,22 @@ RULE = ("a case is one block pair handed to compare_block / the polyploid calcul
         "haplotype strings / distinct scenario")
 MANIFEST = dict(
     text="Lean 4 theorems about an exact model of compare.py's diploid functions (switch_encoding, hamming, complement, "
-         "compute_switch_flips, compare_block, longest-block agreement as coded and as repaired): switches = s + 2f, zero "
-         "on identical input, invariance under swapping the haplotypes of either phasing, Hamming = minimum over "
-         "correspondences = min(d, n-d), agreement vector has exactly `hamming` zeros (repaired code; Lean witness that the "
-         "current code violates it, F3). Polyploid DP, joint blocks, totals, BED/TSV content: executable Lean model + "
-         "brute-force spec, tied to the working tree by in-process calls and real CLI runs; definitions recomputed "
-         "independently by brute force on every run",
+         "compute_switch_flips, compare_block, longest-block agreement as coded and as repaired), all block lengths: "
+         "switches = s + 2f, zero on identical input, invariance under swapping the haplotypes of either phasing, Hamming = "
+         "minimum over correspondences = min(d, n-d), different genotypes = multiset definition, switch errors = changes of "
+         "the forced correspondence, agreement vector has exactly `hamming` zeros (repaired code; Lean witness that the "
+         "current code violates it, F3). Polyploid calculator (switchflipcalculator.cpp, model incl. its pruning), ploidy <= 4, "
+         "all lengths and costs: cost = brute-force minimum over all sequences of haplotype correspondences "
+         "(poly_dp_unpruned_optimal, poly_prune_sound, poly_dp_optimal) and every pair the back-tracking may return has "
+         "that cost. Joint blocks, totals, BED/TSV content, multiway histogram: executable Lean model, tied to the working "
+         "tree by in-process calls and real CLI runs; definitions recomputed independently by brute force on every run",
     design_ref="DESIGN.md §5 C11, §6 F3",
-    note="trusted: Lean kernel, axioms ⊆ {propext, Classical.choice, Quot.sound}; the hand-written model; diploid theorems "
-         "are for all lengths; the polyploid DP's optimality is NOT proved in Lean (stretch goal not reached): it is checked "
-         "against brute force (ploidy <= 4, (p!)^n <= 30 000) and an un-pruned Viterbi oracle (blocks <= 8-10) on every run",
+    note="trusted: Lean kernel, axioms ⊆ {propext, Classical.choice, Quot.sound}; the hand-written model (correspondence is "
+         "differential testing: quick ≈ 5 400 cases incl. ≈ 135 CLI runs, thorough ≈ 70 000 incl. ≈ 1 800 CLI runs). Not proved "
+         "in Lean: that a returned polyploid (switches, flips) pair is realised by a sequence (only its cost), ploidy > 4, "
+         "relabelling invariance for polyploid input, the model of `compare`'s block intersection — these are checked against "
+         "brute-force definitions and by metamorphic re-runs on every run. The unchanged tree violates the property "
+         "(F3 and four new findings FC11a-d, each with a proposed patch under fixes/)",
     technique="Lean 4 proofs about a faithful functional model + differential correspondence (in-process and CLI) + "
               "brute-force definition oracle + metamorphic relabelling",
 )
